@@ -284,14 +284,14 @@ type c06Ev struct {
 	Info  []byte
 	Reply []byte
 	Fresh []byte
-	Fault int // 0 ok 1 write failed 2 reply lost
+	Fault int // 0 ok 1 write failed 2 reply lost 3 request lost (histw only: written without error, never received)
 	// Batched: (end-to-end only) a packet was queued on the client between pick() and the queue
 	// check of next() while a re-key packet was being sent. Not part of the model token: the
 	// repaired code sends the re-key packet alone whatever is queued.
 	Batched bool
 }
 
-var c06FaultTok = []string{"o", "w", "l"}
+var c06FaultTok = []string{"o", "w", "l", "q"} // ok, write failed, reply lost, request lost (written without error, never received)
 
 func (e c06Ev) tok() string {
 	switch e.Kind {
@@ -375,6 +375,11 @@ func c06Classify(evs []c06Ev, upto int) string {
 			if e.Fault != 1 {
 				sess = true
 			}
+		case e.Fault == 3:
+			hello = false // the packet left the client and never arrived
+			if e.Rekey {
+				lost[i] = "requestLost:rekey"
+			}
 		case e.Fault == 1:
 			hello = false // whatever was picked (also a queued hello) is gone
 		case hello:
@@ -392,13 +397,25 @@ func c06Classify(evs []c06Ev, upto int) string {
 			lost[i] = "replyLost:data"
 		}
 	}
+	// the most recent loss that touches key material explains a split; a lost data reply alone never
+	// does (it is reported only when nothing else happened)
+	other := ""
 	for i := upto; i >= 0; i-- {
 		if evs[i].Kind == "x" && evs[i].Batched && evs[i].Fault == 0 {
 			return "rekey-batched"
 		}
+		if lost[i] == "replyLost:data" {
+			if other == "" {
+				other = lost[i]
+			}
+			continue
+		}
 		if lost[i] != "" {
 			return lost[i]
 		}
+	}
+	if other != "" {
+		return other
 	}
 	return "no-fault"
 }
